@@ -381,7 +381,11 @@ class Check:
             'coverage': cov, 'assumptions': assumptions,
             'wall_s': round(time.time() - self.t0, 2), 'violations': self.violations,
         }
-        (VERIF / 'evidence' / f'{self.pid}.json').write_text(json.dumps(ev, indent=1, default=str))
+        # evidence/<id>.json describes runs against /repo only; a run against another tree (VERIF_REPO=…, used by the
+        # seeded-change tooling) records itself under evidence/other_tree/ (not committed)
+        out_dir = VERIF / 'evidence' if REPO.resolve() == Path('/repo') else VERIF / 'evidence' / 'other_tree'
+        out_dir.mkdir(parents=True, exist_ok=True)
+        (out_dir / f'{self.pid}.json').write_text(json.dumps(ev, indent=1, default=str))
 
     def finish(self) -> int:
         self.log(f'[{self.pid}] tier={self.tier} seed={self.seed} violations={self.violations} '
